@@ -388,12 +388,6 @@ Fixpoint insert_due (x : Z * tkind) (l : list (Z * tkind)) : list (Z * tkind) :=
   | y :: r => if fst x <? fst y then x :: l else y :: insert_due x r
   end.
 Definition sort_due (l : list (Z * tkind)) : list (Z * tkind) := fold_right insert_due [] l.
-Fixpoint has_dup (l : list (Z * tkind)) : bool :=   (* on a sorted list *)
-  match l with
-  | x :: ((y :: _) as r) => (fst x =? fst y) || has_dup r
-  | _ => false
-  end.
-
 Definition fire (s : st) (t : Z * tkind) : M :=
   match snd t with
   | TRetry => startInLoop s          (* the timer's bound shared_ptr keeps the connector alive *)
@@ -522,8 +516,9 @@ Definition step_core (s : st) (o : op) : option M :=      (* outer None = Reject
       | None => None
       | Some t0 =>
           let now' := Z.max (now s) t0 in
+          (* equal deadlines are run in the order of the Timer objects' addresses: the callbacks are startInLoop (all alike)
+             and the empty removeConnector, so every order gives the same result; sort_due fixes one *)
           let expired := sort_due (filter (fun t => fst t <=? now') (timers s)) in
-          if has_dup expired then None else
           let s := set_now (set_timers s (filter (fun t => now' <? fst t) (timers s))) now' in
           Some (fire_all expired s)
       end
@@ -542,13 +537,12 @@ Definition step_core (s : st) (o : op) : option M :=      (* outer None = Reject
       | _, _ => None
       end
   | UserRelease =>
+      (* dropping the LAST reference of a connection that is still up destroys a kConnected TcpConnection: gc faults
+         (assert in ~TcpConnection); the theorems exclude it by `release_ok` *)
       match find_user (conns s) 0%nat with
       | Some c =>
           match nth_error (conns s) c with
-          | Some o =>
-              (* dropping the last reference to a connection that is still up is the user's error *)
-              if (refs s c =? 1)%nat && negb (match cst o with CDisconnected => negb (creg o) | _ => false end)
-              then None else Some (ret (setc s c (c_set_user 0%nat)))
+          | Some o => Some (ret (setc s c (c_set_user 0%nat)))
           | None => None
           end
       | None => None
@@ -614,12 +608,25 @@ Definition timely (s : st) : bool :=
 Definition destroy_ok (s : st) : bool :=
   negb (is_some (connection s)) || negb (existsb is_kfunctor (pending s)).
 
+(* the user does not drop the last reference of a connection that is still up (possible only after ~TcpClient left the
+   connection to a user reference): TcpConnection objects must go through connectDestroyed *)
+Definition release_ok (s : st) : bool :=
+  match find_user (conns s) 0%nat with
+  | Some c =>
+      match nth_error (conns s) c with
+      | Some o => negb ((refs s c =? 1)%nat && negb (match cst o with CDisconnected => negb (creg o) | _ => false end))
+      | None => true
+      end
+  | None => true
+  end.
+
 Definition contract (s : st) (o : op) : bool :=
   match o with
   | Connect | XConnectFlags => idle s
   | TimerFire => timely s
   | Destroy => destroy_ok s
   | XDestroyRead | XDestroyRest | XDestroyInWrite => false        (* the theorems are about destruction on the loop thread *)
+  | UserRelease => release_ok s
   | _ => true
   end.
 (* what the property text allows (used by the generator; the difference to `contract` are the findings) *)
